@@ -1,6 +1,6 @@
 (* Model of the source-recovery heuristic of func_adl/util_ast.py at *token* level:
    _token_runner.find_identifier, _token_runner.tokens_till, _get_lambda_in_stream,
-   _parse_source_for_lambda (backing-up loop, grouping by the preceding NAME, caller and argument
+   _parse_source_for_lambda (backing-up loop, grouping by the calling method's NAME, caller and argument
    filters, multiplicity errors, the def branch through rewrite_func_as_lambda).
 
    What is CPython's and therefore an *input* of the model (tied by correspondence only):
@@ -16,10 +16,13 @@
      - `inspect.getsource` + `ast.parse` of a one-line `def`: [dsrc] (statement kinds of the body);
      - whether the callable is a lambda (`__name__ == "<lambda>"`): [is_lam].
 
-   This file models the algorithm *with the two proposed fixes* (fixes/F15.diff, fixes/F15b.diff):
+   This file models the algorithm *with the three repairs* (fixes/F15.diff, fixes/F15b.diff,
+   fixes/F28.diff = commits 96d33e6, 9ed12ca, d451731 of the library):
    [rowfix] = only a candidate whose `lambda` token is on row L is kept; [kwfix] = a lambda is
-   searched by the keyword `lambda` only, a function by `def` only.  The selection of the pinned
-   commit is [find_gen false false]; it is kept so that the defects are recorded as theorems
+   searched by the keyword `lambda` only, a function by `def` only; [eqfix] = find_identifier does not
+   take a NAME that is immediately followed by the OP `=` (the keyword of an argument, `f=lambda ...`)
+   for the name of the called method: the identifier before it is restored.  The selection of the pinned
+   commit is [find_gen false false false]; it is kept so that the defects are recorded as theorems
    (Properties/C03.v: ..._refuted). *)
 From Coq Require Import List String ZArith Bool Arith.
 Import ListNotations.
@@ -36,7 +39,8 @@ Inductive parse_res :=
 
 Definition parse_fn := list tok -> parse_res.
 
-(* a lambda seen by the scan: preceding NAME (grouping key), index of its `lambda` token, index of
+(* a lambda seen by the scan: the identifier find_identifier returns with it (grouping key: the last NAME
+   before it that is not the keyword of a `name=` argument), index of its `lambda` token, index of
    the token that ended its extent (or the stream length), row of the `lambda` token, parse *)
 Record cand := mkCand { c_key : option string; c_start : nat; c_stop : nat; c_row : nat;
                         c_parse : parse_res }.
@@ -77,9 +81,10 @@ Definition dbrc := delta "{" "}".
 Definition zero3 (p b c : Z) : bool := Z.eqb p 0 && Z.eqb b 0 && Z.eqb c 0.
 
 (* ---- the scan of one stream ---- *)
+(* find_identifier's loop state: last_identifier, previous_identifier, last_was_name *)
 Inductive mode :=
-| First (last : option string)      (* find_identifier(kw), can_encounter_newline=True *)
-| Seek (last : option string)       (* find_identifier(["lambda"], can_encounter_newline=False) *)
+| First (last prev : option string) (nm : bool)  (* find_identifier(kw), can_encounter_newline=True *)
+| Seek (last prev : option string) (nm : bool)   (* find_identifier(["lambda"], can_encounter_newline=False) *)
 | Ext (key : option string) (start row : nat) (p b c : Z) (saw : bool).
                                     (* tokens_till inside _get_lambda_in_stream *)
 
@@ -97,9 +102,15 @@ Definition not_comment (t : tok) : bool := negb (is_kind KComment t).
 Definition extent (whole : list tok) (a b : nat) : list tok :=
   firstn 1 (skipn a whole) ++ filter not_comment (firstn (b - S a) (skipn (S a) whole)).
 
+(* find_identifier on a token that is not a NAME:
+     if last_was_name and t.type == OP and t.string == "=": last_identifier = previous_identifier *)
+Definition unkw (eqfix nm : bool) (last prev : option string) (t : tok) : option string :=
+  if eqfix && nm && is_op "=" t then prev else last.
+
 Section Scan.
   Variable P : parse_fn.
   Variable kw : list string.
+  Variable eqfix : bool.          (* the repair of d451731 (F28) is in force *)
   Variable whole : list tok.      (* the complete stream being scanned *)
 
   (* end of _get_lambda_in_stream: parse the extent, record the candidate *)
@@ -114,14 +125,14 @@ Section Scan.
     match ts with
     | [] =>
         match m with
-        | First _ => ScNone
-        | Seek _ => ScDone (rev cs)
+        | First _ _ _ => ScNone
+        | Seek _ _ _ => ScDone (rev cs)
         | Ext key st row _ _ _ _ => close key st i row cs (fun cs' => ScDone (rev cs'))
         end
     | t :: r =>
         if is_kind KErr t then ScCrash (ttext t) else
         match m with
-        | First last =>
+        | First last prev nm =>
             if is_kind KName t then
               if existsb (String.eqb (ttext t)) kw then
                 if String.eqb (ttext t) "def" then ScDef
@@ -129,19 +140,19 @@ Section Scan.
                      | None => ScNoName i
                      | Some _ => scan (Ext last i (trow t) 0 0 0 false) (S i) r cs
                      end
-              else scan (First (Some (ttext t))) (S i) r cs
-            else scan m (S i) r cs
-        | Seek last =>
+              else scan (First (Some (ttext t)) last true) (S i) r cs
+            else scan (First (unkw eqfix nm last prev t) prev false) (S i) r cs
+        | Seek last prev nm =>
             if is_kind KName t then
               if String.eqb (ttext t) "lambda"
               then scan (Ext last i (trow t) 0 0 0 false) (S i) r cs
-              else scan (Seek (Some (ttext t))) (S i) r cs
+              else scan (Seek (Some (ttext t)) last true) (S i) r cs
             else if is_kind KNewline t then ScDone (rev cs)
-            else scan m (S i) r cs
+            else scan (Seek (unkw eqfix nm last prev t) prev false) (S i) r cs
         | Ext key st row p b c saw =>
             if is_stop t && zero3 p b c then
               close key st i row cs
-                    (fun cs' => if saw then ScDone (rev cs') else scan (Seek None) (S i) r cs')
+                    (fun cs' => if saw then ScDone (rev cs') else scan (Seek None None false) (S i) r cs')
             else
               let p' := (p + dpar t)%Z in
               let b' := (b + dbrk t)%Z in
@@ -153,19 +164,20 @@ Section Scan.
 
 End Scan.
 
-Definition scan_stream (P : parse_fn) (kw : list string) (ts : list tok) : scan_res :=
-  scan P kw ts (First None) 0 ts [].
+Definition scan_stream (P : parse_fn) (kw : list string) (eqfix : bool) (ts : list tok) : scan_res :=
+  scan P kw eqfix ts (First None None false) 0 ts [].
 
 Section Backup.
   Variable P : parse_fn.
   Variable kw : list string.
+  Variable eqfix : bool.
 
   (* the backing-up loop `lambda_line -= 1` *)
   Fixpoint backup (streams : list (list tok)) (s : nat) : nat * option scan_res :=
     match streams with
     | [] => (s, None)
     | ts :: more =>
-        match scan_stream P kw ts with
+        match scan_stream P kw eqfix ts with
         | ScNoName _ => backup more (S s)
         | r => (s, Some r)
         end
@@ -219,9 +231,9 @@ Definition def_outcome (d : def_src) : outcome :=
 Definition keywords (kwfix is_lam : bool) : list string :=
   if kwfix then (if is_lam then ["lambda"] else ["def"]) else ["def"; "lambda"].
 
-Definition find_gen (rowfix kwfix : bool) (P : parse_fn) (streams : list (list tok)) (L : nat)
+Definition find_gen (rowfix kwfix eqfix : bool) (P : parse_fn) (streams : list (list tok)) (L : nat)
            (is_lam : bool) (dsrc : def_src) (caller : option string) (args : list string) : outcome :=
-  match backup P (keywords kwfix is_lam) streams 0 with
+  match backup P (keywords kwfix is_lam) eqfix streams 0 with
   | (s, None) => NeedStream s
   | (s, Some ScDef) => def_outcome dsrc
   | (s, Some ScNone) => Err ENoSource
@@ -230,11 +242,14 @@ Definition find_gen (rowfix kwfix : bool) (P : parse_fn) (streams : list (list t
   | (s, Some (ScNoName _)) => NeedStream s      (* not produced by [backup] *)
   end.
 
-(* the algorithm with fixes F15 and F15b *)
-Definition find := find_gen true true.
+(* the algorithm with fixes F15, F15b and F28 (the library at d451731) *)
+Definition find := find_gen true true true.
 (* the pinned commit *)
-Definition find_pinned := find_gen false false.
+Definition find_pinned := find_gen false false false.
 (* F15b applied, F15 not: the selection that loses the line constraint *)
-Definition find_norow := find_gen false true.
+Definition find_norow := find_gen false true false.
 (* F15 applied, F15b not: `def` and `lambda` searched together *)
-Definition find_defkw := find_gen true false.
+Definition find_defkw := find_gen true false false.
+(* F15 and F15b applied, F28 not (the library before d451731): a lambda passed by keyword is filed
+   under the keyword's name *)
+Definition find_kwname := find_gen true true false.
